@@ -234,6 +234,7 @@ func (in *inst) Check(res *mcrt.Result) []explore.Violation {
 		add("deadlock: blocked on %v", res.BlockedOn)
 	}
 	if res.Capped {
+		add("execution did not finish within the step limit (%d steps): a logging goroutine spins or never terminates", res.Steps)
 		return vs
 	}
 	for _, m := range in.mutated {
